@@ -1,5 +1,6 @@
 import EinoV.Oracle.GraphCase
 import EinoV.Oracle.C02Workflow
+import EinoV.Oracle.C02Rerun
 import EinoV.Spec.DagWF
 import EinoV.Spec.DagStatus
 import EinoV.Spec.GraphDefWF
@@ -12,6 +13,7 @@ open Lean EinoV
 def handleKind (kind : String) (c : Json) : JE Json :=
   match kind with
   | "workflow" => C02Workflow.handle c
+  | "rerun" => C02Rerun.handle c
   | _ => throw s!"unknown case kind {kind}"
 
 /-- case: {"g": graph case, "input": "x"}  (no "kind"), or a case of an extra family -/
